@@ -105,7 +105,8 @@ pub fn run(ctx: &mut Ctx, which: Which) {
     let nb = 1 + ctx.tape.choose(4);
     let mut hot: Vec<u32> = vec![];
     for _ in 0..nb {
-        let b = match ctx.tape.choose(6) {
+        let b = match ctx.tape.choose(7) {
+            6 => 64 * (1 + ctx.tape.choose(3)) - 1 + ctx.tape.choose(3), // around a 64-bit limb boundary: 63..65, 127..129, 191..193
             0 => ctx.tape.choose(4),           // 0..3 (tiny buckets)
             1 | 2 => 4 + ctx.tape.choose(5),   // 4..8 (can fill, low index)
             3 => 9 + ctx.tape.choose(240),     // middle
@@ -515,9 +516,33 @@ fn check_closest(ctx: &mut Ctx, table: &mut KBucketsTable<NodeId, u64>, local: &
     let ntargets = 3;
     for _ in 0..ntargets {
         // target selection: local, stored id, id at a chosen log2 distance with low bits set, random
-        let tk = ctx.tape.choose(8);
+        let tk = ctx.tape.choose(10);
         let target: Id = match tk {
             0 => *local,
+            8 | 9 => {
+                // distance built limb by limb (64-bit words) from runs of set and clear bits: the shapes a
+                // word-at-a-time scan of the distance would treat specially
+                let mut d = [0u8; 32];
+                for limb in 0..4usize {
+                    let j = ctx.tape.choose(64);
+                    let w: u64 = match ctx.tape.choose(7) {
+                        0 => 0,
+                        1 => u64::MAX,
+                        2 => (1u64 << j) - 1,
+                        3 => !((1u64 << j) - 1),
+                        4 => 1u64 << j,
+                        5 => !(1u64 << j),
+                        _ => {
+                            let mut s = ctx.tape.choose(1 << 30) as u64;
+                            crate::prng::splitmix(&mut s)
+                        }
+                    };
+                    // limb 0 = least significant = bytes 24..32 (big-endian id)
+                    let at = 32 - 8 * (limb + 1);
+                    d[at..at + 8].copy_from_slice(&w.to_be_bytes());
+                }
+                xor(local, &d)
+            }
             1 | 2 => *ctx.tape.pick(pool),
             3..=5 => {
                 let d = ctx.tape.choose(257); // 0..=256
